@@ -3,137 +3,8 @@
    Executable definitions only. *)
 From Coq Require Import List NArith ZArith Bool.
 Import ListNotations.
-Require Import Verif.Lib.Wire Verif.Lib.Utf8 Verif.Gen.Facts_C19.
+Require Import Verif.Lib.Wire Verif.Lib.Utf8 Verif.Model.C19_base Verif.Gen.Facts_C19.
 Open Scope N_scope.
-
-(* ------------------------------------------------------------------ string.Template
-   The pattern (Python 3.12) is: DOLLAR followed by one of
-     escaped = DOLLAR | named = ID | braced = LBRACE ID RBRACE | invalid = empty
-   with ID = one of [_a-z] then any of [_a-z0-9], ASCII only, under re.IGNORECASE.
-   [pattern.sub] scans the template once, left to right; the scanner below is that scan,
-   one character per step. *)
-Definition is_id_start (c : N) : bool :=
-  (c =? 95) || ((65 <=? c) && (c <=? 90)) || ((97 <=? c) && (c <=? 122)).
-Definition is_id_char (c : N) : bool := is_id_start c || ((48 <=? c) && (c <=? 57)).
-
-Inductive tok := TChar (c : N) | TDollar | TRef (name : text) | TInvalid.
-Inductive mode := MNormal | MDollar | MNamed (acc : text) | MBraced (acc : text).   (* acc reversed *)
-
-Definition is_nil {A} (l : list A) : bool := match l with [] => true | _ => false end.
-
-Fixpoint tokenise_from (m : mode) (s : text) : list tok :=
-  match s with
-  | [] =>
-      match m with
-      | MNormal => []
-      | MDollar => [TInvalid]
-      | MNamed acc => [TRef (rev acc)]
-      | MBraced _ => [TInvalid]
-      end
-  | c :: r =>
-      match m with
-      | MNormal => if c =? 36 then tokenise_from MDollar r else TChar c :: tokenise_from MNormal r
-      | MDollar =>
-          if c =? 36 then TDollar :: tokenise_from MNormal r
-          else if is_id_start c then tokenise_from (MNamed [c]) r
-          else if c =? 123 then tokenise_from (MBraced []) r
-          else [TInvalid]
-      | MNamed acc =>
-          if is_id_char c then tokenise_from (MNamed (c :: acc)) r
-          else TRef (rev acc) ::
-               (if c =? 36 then tokenise_from MDollar r else TChar c :: tokenise_from MNormal r)
-      | MBraced acc =>
-          if (if is_nil acc then is_id_start c else is_id_char c) then tokenise_from (MBraced (c :: acc)) r
-          else if (c =? 125) && negb (is_nil acc) then TRef (rev acc) :: tokenise_from MNormal r
-          else [TInvalid]
-      end
-  end.
-Definition tokenise := tokenise_from MNormal.
-
-Inductive res (A : Type) := Ok (a : A) | KeyErr | ValErr | EncErr.
-Arguments Ok {A} a. Arguments KeyErr {A}. Arguments ValErr {A}. Arguments EncErr {A}.
-Definition rmap {A B} (f : A -> B) (r : res A) : res B :=
-  match r with Ok a => Ok (f a) | KeyErr => KeyErr | ValErr => ValErr | EncErr => EncErr end.
-Definition rbind {A B} (r : res A) (f : A -> res B) : res B :=
-  match r with Ok a => f a | KeyErr => KeyErr | ValErr => ValErr | EncErr => EncErr end.
-
-(* Python dict with str keys: lookup / assignment (replace in place, else append) *)
-Definition env := list (text * text).
-Fixpoint lookup (k : text) (e : env) : option text :=
-  match e with [] => None | (k', v) :: r => if text_eqb k k' then Some v else lookup k r end.
-Fixpoint aset (k v : text) (e : env) : env :=
-  match e with
-  | [] => [(k, v)]
-  | (k', v') :: r => if text_eqb k k' then (k', v) :: r else (k', v') :: aset k v r
-  end.
-
-(* convert(mo) for each match, in order; the first failing match raises *)
-Fixpoint render (ts : list tok) (e : env) : res text :=
-  match ts with
-  | [] => Ok []
-  | TChar c :: r => rmap (cons c) (render r e)
-  | TDollar :: r => rmap (cons 36) (render r e)
-  | TRef n :: r => match lookup n e with Some v => rmap (app v) (render r e) | None => KeyErr end
-  | TInvalid :: _ => ValErr
-  end.
-Definition substitute (tmpl : text) (e : env) : res text := render (tokenise tmpl) e.
-
-(* ------------------------------------------------------------------ webob.html_escape on a str:
-   html.escape(s, quote=True) then .encode('ascii', 'xmlcharrefreplace') *)
-Fixpoint dec_aux (fuel : nat) (n : N) (acc : text) : text :=
-  match fuel with
-  | O => acc
-  | S f => let acc' := (48 + n mod 10) :: acc in
-           if n / 10 =? 0 then acc' else dec_aux f (n / 10) acc'
-  end.
-Definition dec (n : N) : text := dec_aux (S (N.size_nat n)) n [].
-
-Definition ent_amp : text := [38; 97; 109; 112; 59].          (* &amp; *)
-Definition ent_lt : text := [38; 108; 116; 59].               (* &lt; *)
-Definition ent_gt : text := [38; 103; 116; 59].               (* &gt; *)
-Definition ent_quot : text := [38; 113; 117; 111; 116; 59].   (* &quot; *)
-Definition ent_apos : text := [38; 35; 120; 50; 55; 59].      (* &#x27; *)
-Definition html_escape1 (c : N) : text :=
-  if c =? 38 then ent_amp
-  else if c =? 60 then ent_lt
-  else if c =? 62 then ent_gt
-  else if c =? 34 then ent_quot
-  else if c =? 39 then ent_apos
-  else if c <? 128 then [c]
-  else [38; 35] ++ dec c ++ [59].                             (* &#NNN; *)
-Definition html_escape (s : text) : text := flat_map html_escape1 s.
-
-Definition esc_apply (f : escfn) (s : text) : text :=
-  match f with EscHtml => html_escape s | EscNone => s | EscUnknown => s end.
-
-(* ------------------------------------------------------------------ json.dumps (ensure_ascii) *)
-Definition hex1 (d : N) : N := if d <? 10 then 48 + d else 87 + d.
-Definition uesc (c : N) : text :=
-  [92; 117; hex1 ((c / 4096) mod 16); hex1 ((c / 256) mod 16); hex1 ((c / 16) mod 16); hex1 (c mod 16)].
-Definition json_char (c : N) : text :=
-  if c =? 34 then [92; 34]
-  else if c =? 92 then [92; 92]
-  else if c =? 10 then [92; 110]
-  else if c =? 13 then [92; 114]
-  else if c =? 9 then [92; 116]
-  else if c =? 8 then [92; 98]
-  else if c =? 12 then [92; 102]
-  else if (32 <=? c) && (c <=? 126) then [c]
-  else if c <? 65536 then uesc c
-  else let n := c - 65536 in uesc (55296 + (n / 1024) mod 1024) ++ uesc (56320 + n mod 1024).
-Definition json_string (s : text) : text := 34 :: flat_map json_char s ++ [34].
-Definition json_member (kv : text * text) : text := json_string (fst kv) ++ [58; 32] ++ json_string (snd kv).
-Fixpoint json_members (l : list (text * text)) : text :=
-  match l with
-  | [] => []
-  | [kv] => json_member kv
-  | kv :: r => json_member kv ++ [44; 32] ++ json_members r
-  end.
-Definition json_object (l : list (text * text)) : text := [123] ++ json_members l ++ [125].
-
-(* ------------------------------------------------------------------ str.encode('UTF-8') *)
-Definition utf8_bytes (s : text) : res text :=
-  if forallb valid_scalar s then Ok (Utf8.encode s) else EncErr.
 
 (* ------------------------------------------------------------------ prepare *)
 Record input := mkInput {
@@ -156,12 +27,22 @@ Record policy := mkPolicy {
   p_env_escaped : bool;
   p_hdr_escaped : bool }.
 
-Definition facts_policy : policy := mkPolicy branches args_spec env_escaped hdr_escaped.
+(* constants of the reference model (hand-written; the source's own constants appear in the
+   regenerated program, and the equality theorems compare the two) *)
+Definition env_skip_prefix : text := [119; 115; 103; 105; 46].       (* 'wsgi.' *)
+Definition env_skip_char : N := 46.                                   (* '.' *)
+Definition hdr_lower : bool := true.
+Definition json_keys : list (text * N) :=
+  [([109; 101; 115; 115; 97; 103; 101], 0); ([99; 111; 100; 101], 1); ([116; 105; 116; 108; 101], 2)].
+Definition t_json : text := [97; 112; 112; 108; 105; 99; 97; 116; 105; 111; 110; 47; 106; 115; 111; 110].
+Definition t_plain : text := [116; 101; 120; 116; 47; 112; 108; 97; 105; 110].
+Definition offers : list text := [t_html; t_json].
+Definition fallback_type : text := t_plain.
+Definition accept_key : text := [72; 84; 84; 80; 95; 65; 67; 67; 69; 80; 84].   (* HTTP_ACCEPT *)
+Definition accept_default : text := [].
 
 Fixpoint find_cls (n : text) (l : list cls) : option cls :=
   match l with [] => None | c :: r => if text_eqb n (c_name c) then Some c else find_cls n r end.
-
-Definition or_empty (o : option text) : text := match o with Some t => t | None => [] end.
 
 Fixpoint pick_branch (m : text) (l : list branch) : option branch :=
   match l with
@@ -170,16 +51,6 @@ Fixpoint pick_branch (m : text) (l : list branch) : option branch :=
               | None => Some b
               | Some t => if text_eqb m t then Some b else pick_branch m r
               end
-  end.
-
-Definition lower1 (c : N) : N := if (65 <=? c) && (c <=? 90) then c + 32 else c.
-Definition lower (s : text) : text := map lower1 s.
-
-Fixpoint startswith (p s : text) : bool :=
-  match p, s with
-  | [], _ => true
-  | x :: p', y :: s' => (x =? y) && startswith p' s'
-  | _ :: _, [] => false
   end.
 
 (* (not k.startswith('wsgi.')) and ('.' in k) *)
@@ -227,7 +98,6 @@ Definition build_args (P : policy) (b : branch) (c : cls) (i : input) (custom : 
 
 Definition k_status : text := [115; 116; 97; 116; 117; 115].
 Definition k_body : text := [98; 111; 100; 121].
-Definition cs_utf8 : text := [85; 84; 70; 45; 56].
 
 Definition json_value (src : N) (body status title : text) : text :=
   if src =? 0 then body else if src =? 1 then status else title.
@@ -240,7 +110,6 @@ Definition page_of (b : branch) (c : cls) (body : text) : res text :=
   | PageJson => Ok (json_object (map (fun ks => (fst ks, json_value (snd ks) body status (c_title c))) json_keys))
   end.
 
-Record output := mkOutput { o_status : text; o_ctype : text; o_charset : text; o_body : text }.
 
 (* page text before encoding (the object of most theorems) *)
 Definition page_text (P : policy) (b : branch) (c : cls) (i : input) : res text :=
@@ -266,15 +135,11 @@ Definition prepare (P : policy) (i : input) : option (res output) :=
         end
   end.
 
-Definition model (i : input) : option (res output) := prepare facts_policy i.
 
 (* ------------------------------------------------------------------ specification
    The property's wording as a policy: in the HTML form every supplied text goes through
    html_escape (comment inside an HTML comment), in the JSON and plain forms it is used as
    is; content type per negotiated form. *)
-Definition t_html : text := [116; 101; 120; 116; 47; 104; 116; 109; 108].
-Definition t_json : text := [97; 112; 112; 108; 105; 99; 97; 116; 105; 111; 110; 47; 106; 115; 111; 110].
-Definition t_plain : text := [116; 101; 120; 116; 47; 112; 108; 97; 105; 110].
 Definition s_br_html : text := [60; 98; 114; 47; 62].
 Definition s_cpre : text := [60; 33; 45; 45; 32].
 Definition s_csuf : text := [32; 45; 45; 62].
@@ -437,7 +302,50 @@ Fixpoint calls (P : policy) (i : input) (done : option output) (l : list step) :
       end
   end.
 
-Definition model_calls (i : input) (l : list step) := calls facts_policy i None l.
+(* ------------------------------------------------------------------ the REGENERATED program as a model
+   The object a constructor call builds (class-level attributes first, then gen_init /
+   gen_move_init, then the harness's assignment to .explanation), and calls threaded through
+   the object state. *)
+Definition obj_class (c : cls) : obj :=
+  mkObj (c_code c) (c_title c) (c_expl c) (c_tmpl c) (negb (c_default_tmpl c)) (c_empty c) [] None None [] [] [] [].
+Definition set_expl (x : option text) (o : obj) : obj :=
+  match x with
+  | None => o
+  | Some e => mkObj (ob_code o) (ob_title o) e (ob_tmpl o) (ob_tmpl_custom o) (ob_empty o) (ob_status o)
+                    (ob_detail o) (ob_comment o) (ob_headers o) (ob_ctype o) (ob_charset o) (ob_body o)
+  end.
+Definition gen_obj (c : cls) (i : input) : obj :=
+  set_expl (i_expl i)
+    (if c_move c then gen_move_init (obj_class c) (i_location i) (i_detail i) (i_headers i) (i_comment i) (i_tmpl i) []
+     else gen_init (obj_class c) (i_detail i) (i_headers i) (i_comment i) (i_tmpl i) []).
+
+Fixpoint gen_calls (o : obj) (l : list step) : list (res output) :=
+  match l with
+  | [] => []
+  | s :: r =>
+      match gen_call (fun _ _ => snd s) o (fst s) with
+      | Ok (out, o') => Ok out :: gen_calls o' r
+      | KeyErr => KeyErr :: gen_calls o r
+      | ValErr => ValErr :: gen_calls o r
+      | EncErr => EncErr :: gen_calls o r
+      end
+  end.
+(* a call that raised leaves the object as it was, except for what prepare() had already
+   assigned (content type / charset), which the next rendering overwrites; see Proofs *)
+
+Definition model_calls (i : input) (l : list step) : list (option (res output)) :=
+  match find_cls (i_cls i) classes with
+  | None => map (fun _ => None) l
+  | Some c => map Some (gen_calls (gen_obj c i) l)
+  end.
+Definition model (i : input) : option (res output) :=
+  match find_cls (i_cls i) classes with
+  | None => None
+  | Some c => Some (rmap fst (gen_call (fun _ _ => i_offers i) (gen_obj c i) (i_environ i)))
+  end.
+
+(* the reference model of a history (hand-written) *)
+Definition ref_calls (i : input) (l : list step) := calls spec_policy i None l.
 (* what a fresh object would answer to each call on its own *)
 Definition spec_singles (i : input) (l : list step) := map (fun s => prepare spec_policy (with_call i s)) l.
 
